@@ -872,7 +872,7 @@ func f(b []byte) int { h := blake2b.Sum256(b); return len(h) }`, "f", true, "let
 	{"blake2b.Sum512", `import "golang.org/x/crypto/blake2b"
 func f(b []byte) byte { h := blake2b.Sum512(b); return h[0] }`, "f", false, "unsupported call"},
 	{"sha256.Sum256", `import "crypto/sha256"
-func f(b []byte) byte { h := sha256.Sum256(b); return h[0] }`, "f", false, "unsupported call"},
+func f(b []byte) byte { h := sha256.Sum256(b); return h[0] }`, "f", true, "def f (sha256_Sum256 : List (BitVec 8) → List (BitVec 8)) (b : List (BitVec 8)) : Option (BitVec 8) :="}, // a PARAMETER since stage 12
 	{"blake2b.New256", `import "golang.org/x/crypto/blake2b"
 func f(b []byte) int { h, _ := blake2b.New256(nil); h.Write(b); return h.Size() }`, "f", false, "unsupported call blake2b.New256(nil)"},
 	{"variable called like the parameter for blake2b.Sum256", `import "golang.org/x/crypto/blake2b"
